@@ -22,20 +22,22 @@ func init() {
 	kernel.Register(&kernel.Rig{
 		Property: "C08", Name: "R-chain/sign", Level: "exploration",
 		Rule: "the core is a pure function of the wire bytes (who signed what); simulation contributes only the pipeline position of the tampering (mempool admission, inside a proposed block) and the sender-cache state (transaction cached+BasicChecked in the replica's mempool or not, cache entries expired by virtual time or not). " +
-			"One run = one seeded chain (1-4 validators, 4-8 secp256k1 users with balances and two token balances, kv or trie state) with a block producer P and an honest replica R (real LinkApplication + Mempool with the tx cache on), 2-6 blocks. Per block: 2-10 transactions of the kinds transfer / contract call / contract creation / token transfer (LKC and tokens) / contract upgrade (multi-signed) / multi-sign-account (validator-signed), signed by linkchain's own Sign or by the rig's btcec client; each goes over the wire to P and (warm cache) or not (cold) to R. " +
-			"Tamper catalogue (58 entries: every signed field of every kind, multi-field, r/s/v = 0, = N, > N, 33-byte, high-s twin with and without flipped recovery id, wrong/out-of-range recovery id, V legacy 27/28, raw recovery id, other chain, +2^64, +256, bit flips, signature from another tx, re-signed by another key / for another chain / for no chain, upgrade signature lists dropped/duplicated/sender removed, validator signatures flipped/minority/repeated/duplicated) applied to the wire bytes and offered (1) to R's mempool and (2) inside a block whose result hashes the producer computed as if the victim had sent it (sender pre-filled) or honestly, to R.CheckBlock. One tampered transaction per run is planned before genesis so that the account it recovers to is funded (the different sender is really charged). " +
-			"Oracle: the rig's own reading of the wire bytes (own RLP reader, own signing hash keccak(rlp(fields, chainParameter, 0, 0)), pure-Go btcec recovery, stdlib ed25519, range rules 1<=r<N, 1<=s<=N/2, V=35+2p+recid) says whether a transaction is authorised and whom it charges; accepted+unauthorised, accepted with another believed sender, a victim-charging block accepted, and after every commit nonce/balance/token movements (own pre/post state reads of users, signers, victims) that differ from the authorised senders are violations. " +
+			"One run = one seeded chain (1-4 validators, 4-8 secp256k1 users with coin and two token balances, kv or trie state; in 2/3 of the runs also 3 confidential wallets with 2 sub-addresses each and 2 stranger key sets) with a block producer P and an honest replica R (real LinkApplication + Mempool with the tx cache on), 2-6 blocks. Per block: 2-10 transactions of the kinds transfer / contract call / contract creation / token transfer (LKC and tokens) / contract upgrade (multi-signed) / multi-sign-account (validator-signed) / account->UTXO funding / UTXO->UTXO spend (ring 1 = classic ring signature, ring 2-11 = MLSAG; change to a sub-address) / UTXO->account withdrawal, signed by linkchain's own client code or (transfers, token transfers) by the rig's btcec client; each goes over the wire to P and (warm cache) or not (cold) to R. " +
+			"Tamper catalogue on the wire bytes (55 entries: every signed field of every account kind, multi-field, r/s/v = 0, = N, > N, 33-byte, high-s twin with and without flipped recovery id, wrong/out-of-range recovery id, V legacy 27/28, raw recovery id, other chain, +2^64, +256, bit flips, signature from another tx, re-signed by another key / for another chain / for no chain, upgrade signature lists dropped/duplicated/sender removed/colluding co-signers naming a victim, validator signatures flipped/minority/repeated/duplicated/re-signed by a minority) and on confidential transactions (27 entries: account input nonce/amount, key image, ring member, one-time address, remark, amount field, account output recipient/amount, token, tx key, additional keys, fee, extra, account signature, encrypted amounts, output commitments, range proof, amounts moved to one recipient, pseudo output, MLSAG c/s, classic ring signature, type, fee field; a spend built with another wallet's keys), offered (1) to R's mempool and (2) inside a block whose result hashes the producer computed as if the victim had sent it (sender pre-filled) or honestly, to R.CheckBlock. One tampered transfer per run is planned before genesis so that the account it recovers to is funded (the different sender is really charged). " +
+			"Oracle: the rig's own reading of the wire bytes (own RLP reader, own signing hash keccak(rlp(fields, chainParameter, 0, 0)), pure-Go btcec recovery, stdlib ed25519, range rules 1<=r<N, 1<=s<=N/2, V=35+2p+recid) says whether a transaction is authorised and whom it charges; ring-signed transactions are authorised iff they are byte-for-byte what an owner built (every edit is a forgery by construction); recognition ground truth is what the rig addressed to whom. Violations: accepted+unauthorised; accepted with another believed sender; accepted with an edited field and the original sender; a victim-charging block accepted; after every commit nonce/balance/token movements (own pre/post state reads of users, signers, victims) that differ from the authorised senders; an output missed by its owner, recognised by another key set, or decoded to another amount/sub-address; a re-signed object that keeps its memoised sender. " +
 			"non-trivial = >= 2 blocks committed, >= 10 tampered transactions judged at the mempool, >= 3 tampered blocks judged, at least one with a warm cache; distinct = committed block hashes + every (tamper, stage, outcome).",
-		Real: []string{"types.Transaction / TokenTransaction / ContractUpgradeTx / MultiSignAccountTx (Sign, wire codec, Hash, From, CheckBasic, CheckState)", "types STDEIP155Signer, recoverPlain", "libs/crypto secp256k1 (cgo) Sign/Ecrecover/ValidateSignatureValues", "mempool.Mempool incl. tx cache (txHeapManager) and its expiry loops under virtual time", "app.LinkApplication CheckTx/PreRunBlock/CheckBlock (verifyTxsOnProcess, verifySpecTxSign)/CommitBlock, StateProcessor, state transition, EVM", "txmgr multi-signer records", "BlockStore, StateDB over SimDB", "block part-set wire round trip"},
-		Stub: []string{"consensus (blocks go CheckBlock -> CommitBlock directly, empty LastCommit; SetLastChangedVals called by the rig as updateToStatus would)", "p2p (transactions are decoded from wire bytes and handed to Mempool.AddTx as the reactor does)", "storage engine (SimDB)", "libxcrypto (pure-Go model; not exercised by the account side)", "confidential (UTXO) transactions: not generated (see residual gaps)"},
+		Real: []string{"types.Transaction / TokenTransaction / ContractUpgradeTx / MultiSignAccountTx / UTXOTransaction (client-side construction and Sign, wire codec, Hash, From, CheckBasic, CheckState, checkRingctSignatures, isOutputBelongToAccount, generateKeyImage, generateOneTimeAddress)", "types STDEIP155Signer, recoverPlain", "libs/crypto secp256k1 (cgo) Sign/Ecrecover/ValidateSignatureValues", "mempool.Mempool incl. tx cache (txHeapManager), key-image cache and the expiry loops under virtual time", "app.LinkApplication CheckTx/PreRunBlock/CheckBlock (verifyTxsOnProcess, verifySpecTxSign)/CommitBlock, StateProcessor, state transition, EVM", "txmgr multi-signer records", "BlockStore, UtxoStore, StateDB over SimDB", "block part-set wire round trip"},
+		Stub: []string{"consensus (blocks go CheckBlock -> CommitBlock directly, empty LastCommit; SetLastChangedVals called by the rig as updateToStatus would)", "p2p (transactions are decoded from wire bytes and handed to Mempool.AddTx as the reactor does)", "storage engine (SimDB)", "libxcrypto = the harness's pure-Go model: genuine key derivation, sub-addresses, key images, ECDH amount encoding, commitments, MLSAG and classic ring signatures; the range PROVER is a transparent stand-in (sound, not hiding), so nothing is claimed about range-proof forgery resistance", "wallet: the receiving side is the rig's scan() over linkchain's IsOutputBelongToAccount/EcdhDecode, not wallet/wallet"},
 		Assumptions: []string{
 			"the statement of the scheme the oracle implements (EIP-155 form with the network's parameter types.SignParam, low-s rule, address = keccak(pubkey)[12:]) is the intended one",
 			"btcec (pure Go) recovery, x/crypto keccak and stdlib ed25519 are correct",
 			"the catalogue emits only canonically encoded integers, so that 'the fields' and 'the wire bytes' coincide",
 			"validator set is static (no consensus), so the multi-sign quorum is over the genesis validators",
+			"confidential side: the xcrypto model is faithful (validated against C++ vectors by sim/xcryptotest); its randomness is the tape",
+			"LKC confidential transactions only (token UTXO needs a token contract answering the change-rate call)",
 		},
-		QuickRuns: 96, QuickBudget: 70 * time.Second, ThoroughRuns: 3000, ThoroughBudget: 18 * time.Minute,
-		RunsPerProcess: 6, RunTimeout: 150 * time.Second, MaxProcs: 2,
+		QuickRuns: 1280, QuickBudget: 70 * time.Second, ThoroughRuns: 20000, ThoroughBudget: 18 * time.Minute,
+		RunsPerProcess: 40, RunTimeout: 150 * time.Second, MaxProcs: 1,
 		Run: run,
 	})
 }
@@ -88,30 +90,30 @@ type tampered struct {
 }
 
 type runner struct {
-	c     *kernel.Ctx
-	w     *world
-	cfg   runCfg
-	wl    *kernel.Tape
-	tm    *kernel.Tape
-	nonce map[addr20]uint64
-	funded []*userKey
-	mstNonce uint64
-	smp   sample
+	c                                           *kernel.Ctx
+	w                                           *world
+	cfg                                         runCfg
+	wl                                          *kernel.Tape
+	tm                                          *kernel.Tape
+	nonce                                       map[addr20]uint64
+	funded                                      []*userKey
+	mstNonce                                    uint64
+	smp                                         sample
 	memJudged, blkJudged, warmJudged, committed int
-	stop  bool
-	ghost *tampered
-	ghostSrc *sent
-	ghostBlk *types.Block
-	ghostRaws [][]byte
-	carry map[types.Tx]*sent // P's mempool objects of earlier rounds -> submission
-	forged []*tampered       // forgeries produced while generating the round (foreign-key spends)
-	utxo  bool               // this run exercises confidential transactions
+	stop                                        bool
+	ghost                                       *tampered
+	ghostSrc                                    *sent
+	ghostBlk                                    *types.Block
+	ghostRaws                                   [][]byte
+	carry                                       map[types.Tx]*sent // P's mempool objects of earlier rounds -> submission
+	forged                                      []*tampered        // forgeries produced while generating the round (foreign-key spends)
+	utxo                                        bool               // this run exercises confidential transactions
 }
 
 func run(c *kernel.Ctx) {
 	simnode.InitGlobals()
 	learnPrefixes()
-	xcrypto.SetRand(c.Tape.Fork("xcrypto"))
+	xcrypto.SetRand(white(c.Tape.Fork("xcrypto"), "xcrypto"))
 	defer xcrypto.SetRand(nil)
 	kernel.Bubble(c, true, func() {
 		r := &runner{c: c, carry: map[types.Tx]*sent{}}
@@ -140,7 +142,7 @@ func lkc(n int64) *big.Int { return new(big.Int).Mul(big.NewInt(n), big.NewInt(1
 func (r *runner) main() {
 	c := r.c
 	ct := c.Tape.Fork("config")
-	kt := c.Tape.Fork("keys")
+	kt := white(c.Tape.Fork("keys"), "keys")
 	r.wl = c.Tape.Fork("workload")
 	r.tm = c.Tape.Fork("tamper")
 	deep := c.Tier == kernel.Thorough
@@ -231,6 +233,8 @@ func (r *runner) main() {
 			ch.Mempool.Stop()
 			synctest.Wait()
 			ch.Mempool.Stop()
+			synctest.Wait()
+			releaseCache(ch.Mempool)
 		}
 	}()
 
